@@ -263,6 +263,7 @@ type Obs struct {
 	PolOps       []int
 	ExpelOrder   []int // Expels()[i] = c.Expels[ExpelOrder[i]]
 	SufStateHash string
+	SufErr       string // error of SuffrageNodesStateValue.Suffrage() (isaac.NewSuffrage) on the new value
 }
 
 // NewProposal builds (and signs) the proposal carrying the case's operations in the given order.  Its
@@ -531,6 +532,11 @@ func (c *Case) RunProposal(pr base.ProposalSignFact, order []int, sc Sched) (obs
 			}
 			obs.SufOps = factIndex(st.Operations())
 			obs.SufStateHash = st.Hash().String()
+			if len(v.Nodes()) > 0 {
+				if _, err := v.Suffrage(); err != nil {
+					obs.SufErr = err.Error()
+				}
+			}
 		case isaac.SuffrageCandidateStateKey:
 			v := st.Value().(base.SuffrageCandidatesStateValue)
 			obs.CandChanged = true
